@@ -43,6 +43,7 @@ func (r *Rng) Chance(num, den int) bool {
 }
 func (r *Rng) F01() float64 { return float64(r.U64()>>11) / float64(1<<53) }
 func (r *Rng) Fork() *Rng   { return NewRng(r.U64()) }
+func (r *Rng) Clone() *Rng  { return &Rng{s: r.s} }
 
 // ---------- Coq term emission ----------
 
